@@ -751,22 +751,22 @@ tokenLoop:
 				return nil, err
 			}
 		case timescanner.FULL_ISO_YEAR, timescanner.FULL_ISO_YEAR_ZERO_PADDED:
-			err = parseDateISOYear(formatString, input, &currentInput, &tmp.date, false)
+			err = parseDateISOYear(formatString, input, &currentInput, &tmp.date, false, temporalNextTokenIsNotDigit(scanner))
 			if !err.IsUndefined() {
 				return nil, err
 			}
 		case timescanner.FULL_ISO_YEAR_SPACE_PADDED:
-			err = parseDateISOYear(formatString, input, &currentInput, &tmp.date, true)
+			err = parseDateISOYear(formatString, input, &currentInput, &tmp.date, true, temporalNextTokenIsNotDigit(scanner))
 			if !err.IsUndefined() {
 				return nil, err
 			}
 		case timescanner.FULL_YEAR, timescanner.FULL_YEAR_ZERO_PADDED:
-			err = parseDateYear(formatString, input, &currentInput, &tmp.date, false)
+			err = parseDateYear(formatString, input, &currentInput, &tmp.date, false, temporalNextTokenIsNotDigit(scanner))
 			if !err.IsUndefined() {
 				return nil, err
 			}
 		case timescanner.FULL_YEAR_SPACE_PADDED:
-			err = parseDateYear(formatString, input, &currentInput, &tmp.date, true)
+			err = parseDateYear(formatString, input, &currentInput, &tmp.date, true, temporalNextTokenIsNotDigit(scanner))
 			if !err.IsUndefined() {
 				return nil, err
 			}
@@ -1251,7 +1251,7 @@ func parseDate1(formatString, input string, currentInput *string, tmp *tmpDateTi
 	if !err.IsUndefined() {
 		return err
 	}
-	err = parseDateYear(formatString, input, currentInput, &tmp.date, true)
+	err = parseDateYear(formatString, input, currentInput, &tmp.date, true, false)
 	if !err.IsUndefined() {
 		return err
 	}
@@ -1291,7 +1291,7 @@ func parseDateAndTime(formatString, input string, currentInput *string, tmp *tmp
 	if !err.IsUndefined() {
 		return err
 	}
-	err = parseDateYear(formatString, input, currentInput, &tmp.date, false)
+	err = parseDateYear(formatString, input, currentInput, &tmp.date, false, false)
 	if !err.IsUndefined() {
 		return err
 	}
